@@ -5,7 +5,7 @@ import types
 import numpy as np
 import pandas as pd
 
-from .. import common
+from .. import common, checklib
 
 LEVEL = "exploration"
 
@@ -193,7 +193,16 @@ def call_chain_callee(depth_total, env, formula, d, extra, local_at, name):
             g.pop(k, None)
 
 
+def PROOFS():
+    from ..contracts import environment_c, call_resolver_c
+    R = "formulae.terms.call_resolver."
+    return [("vf.contracts.environment_c", environment_c.FUNCTIONS),
+            ("vf.contracts.call_resolver_c", [R + "LazyVariable.eval", R + "get_function_from_module",
+                                              "formulae.environment.Environment.capture"])]
+
+
 def run(report, findings):
+    checklib.run_proofs(report, "C11", PROOFS())
     import logging
     logging.getLogger("formulae").setLevel(logging.CRITICAL)
     evals = ok = bad = 0
